@@ -608,6 +608,21 @@ func (d *db) apply(op simrt.Op) {
 		d.doImport(op)
 	case "importval": // S=[index,field] I=[clear,node,(col,val)*]
 		d.doImportValue(op)
+	case "bulkval": // S=[index,field] I=[node,firstCol,n,seed,lo,hi]: one large batch of values in [lo,hi]
+		r := simrt.NewRand(uint64(I[3]))
+		big := simrt.Op{K: "importval", S: S, I: []int64{0, I[0]}}
+		for k := int64(0); k < I[2]; k++ {
+			v := I[4]
+			if I[5] > I[4] {
+				v += r.Int63n(I[5] - I[4] + 1)
+			}
+			if r.Bool(0.3) {
+				v = simrt.Pick(r, I[4], I[5], (I[4]+I[5])/2)
+			}
+			big.I = append(big.I, I[1]+k, v)
+		}
+		d.doImportValue(big)
+		d.c.Probe("bulk-value-import")
 	case "iroaring": // S=[index,field] I=[clear,fmt,node,(row,col)*]
 		d.doImportRoaring(op)
 	case "q": // S=[index,expr] I=[node]
@@ -822,6 +837,12 @@ func (d *db) checkQuery(index string, e *expr, node int, count bool) {
 	}
 	if err != nil {
 		d.fail("query-error", "%s on node %d: %v", q, node, err)
+		return
+	}
+	if ix.shiftCrossed && d.c.Plan.Prop != "C15" {
+		// a bit shifted past its shard's last column: the answer is wrong in a way recorded
+		// under C15 (known finding C15-F1); the other properties' checks do not re-report it
+		d.c.Probe("shift-crossed-skipped")
 		return
 	}
 	ws := sortedU64(want)
